@@ -19,6 +19,9 @@ theorem schemeTable_matches_code :
     (∀ e ∈ Uri.schemes, e.2.2.2 < C2.COAP_URI_SCHEME_HTTP →
       e.2.1 = if e.2.2.2 % 2 = C2.COAP_URI_SCHEME_SECURE_MASK then C2.COAPS_DEFAULT_PORT else C2.COAP_DEFAULT_PORT) := by decide
 
+/-- the guard `e.2.2.2 < COAP_URI_SCHEME_HTTP` above is met by table entries (coap … coaps+tcp) -/
+example : ∃ e ∈ Uri.schemes, e.2.2.2 < C2.COAP_URI_SCHEME_HTTP ∧ e.2.1 = C2.COAPS_DEFAULT_PORT := by decide
+
 /-- the "Add in UriPort if not default" switch of coap_uri_into_optlist (the `dflt` of `uriIntoOptlist`): for every scheme
 of the table, the port the model compares with is the table's default port, and it is the port the C switch names
 (80 / 443 literals by source scan, else COAPS_DEFAULT_PORT / COAP_DEFAULT_PORT by the secure bit) -/
